@@ -795,4 +795,55 @@ theorem marshalOne_ok_of_wf {p : Rtcp} (w : p.WF) : ∃ bs, marshalOne p = .ok b
     exact ⟨_, by simp only [marshalOne]; rw [if_neg this]⟩
   | twcc s m b c r f pl => exact ⟨_, rfl⟩
 
+/-! ### REMB: every value the wire can carry is a fixed point -/
+
+/-- the normalisation loop only strips factors of two that the value really has, when the value is an
+18-bit mantissa times a power of two -/
+theorem rembNorm_pow : ∀ (e fuel m e0 : Nat), m ≤ 262143 → e ≤ fuel →
+    (rembNorm fuel (m * 2 ^ e) e0).1 * 2 ^ ((rembNorm fuel (m * 2 ^ e) e0).2 - e0) = m * 2 ^ e ∧
+      e0 ≤ (rembNorm fuel (m * 2 ^ e) e0).2 := by
+  intro e
+  induction e with
+  | zero =>
+    intro fuel m e0 hm _
+    have hc : c15RembMantissaMax = 262143 := c15RembMantissaMax_val
+    cases fuel with
+    | zero => simp [rembNorm]
+    | succ f =>
+      simp only [rembNorm, Nat.pow_zero, Nat.mul_one]
+      rw [if_neg (by omega)]
+      simp
+  | succ e ih =>
+    intro fuel m e0 hm hf
+    have hc : c15RembMantissaMax = 262143 := c15RembMantissaMax_val
+    cases fuel with
+    | zero => omega
+    | succ f =>
+      simp only [rembNorm]
+      by_cases hgt : m * 2 ^ (e + 1) > c15RembMantissaMax
+      · rw [if_pos hgt]
+        have hhalf : m * 2 ^ (e + 1) / 2 = m * 2 ^ e := by
+          rw [Nat.pow_succ, ← Nat.mul_assoc, Nat.mul_div_cancel _ (by omega : 0 < 2)]
+        rw [hhalf]
+        obtain ⟨h1, h2⟩ := ih f m (e0 + 1) hm (by omega)
+        refine ⟨?_, by omega⟩
+        have : (rembNorm f (m * 2 ^ e) (e0 + 1)).2 - e0 = ((rembNorm f (m * 2 ^ e) (e0 + 1)).2 - (e0 + 1)) + 1 := by omega
+        rw [this, Nat.pow_succ, ← Nat.mul_assoc, h1, Nat.pow_succ, Nat.mul_assoc]
+      · rw [if_neg hgt]; simp
+
+theorem rembCanon_wire (m e : Nat) (hm : m ≤ 262143) (hv : m * 2 ^ e < 2 ^ 64) : rembCanon (m * 2 ^ e) = m * 2 ^ e := by
+  by_cases h0 : m = 0
+  · subst h0
+    simp [rembCanon, rembNorm, c15RembMantissaMax_val]
+  · have he : e ≤ 64 := by
+      rcases Nat.lt_or_ge 64 e with hgt | hle
+      · have h1 : 2 ^ 64 < 2 ^ e := Nat.pow_lt_pow_right (by omega) hgt
+        have h2 : 2 ^ e ≤ m * 2 ^ e := Nat.le_mul_of_pos_left _ (by omega)
+        omega
+      · exact hle
+    obtain ⟨h1, _⟩ := rembNorm_pow e 64 m 0 hm he
+    simp only [Nat.sub_zero] at h1
+    unfold rembCanon
+    rw [h1, Nat.mod_eq_of_lt hv]
+
 end RtcModel.C15
